@@ -7,7 +7,9 @@ mod machine;
 mod model;
 mod prng;
 mod scenario;
+mod setup;
 mod shrink;
+mod sm83;
 
 fn usage() -> i32 {
     eprintln!("usage: gbsim check <property> <quick|thorough> | replay <file> | selftest determinism <scenario> <focus> <runs> | worker ... | runcase ...");
@@ -21,6 +23,13 @@ fn main() {
         Some("replay") if args.len() >= 2 => driver::replay_main(&args[1]),
         Some("worker") if args.len() >= 8 => driver::worker_main(&args[1..]),
         Some("runcase") if args.len() >= 4 => driver::runcase_main(&args[1..]),
+        Some("gen") if args.len() >= 4 => {
+            // gen <scenario> <index> <quick|thorough> : print the generated case
+            let sc = scenario::by_name(&args[1]).expect("scenario");
+            let case = driver::gen_case(sc, driver::base_seed(), args[2].parse().unwrap(), args[3] == "thorough");
+            println!("{}", serde_json::to_string_pretty(&case.to_json()).unwrap());
+            0
+        }
         Some("selftest") if args.len() >= 5 && args[1] == "determinism" => driver::selftest_determinism(&args[2], &args[3], args[4].parse().unwrap_or(1000)),
         _ => usage(),
     };
